@@ -656,7 +656,7 @@ def zone_rows(t, ddx, ddy, ny, nx, mx, my):
             if mx + 1.5 <= x[i] <= nx - 1 - mx - 1.5 and my + 1.5 <= y[i] <= ny - 1 - my - 1.5}
 
 
-def compare_finder(R, api, t0, t1, T, ny, nx, margins, detail, srcs=(), injected=()):
+def compare_finder(R, api, t0, t1, T, ny, nx, margins, detail, srcs=(), injected=(), conv=None):
     mx, my = margins
     # sanity (keeps the relation from being vacuous when the reported positions are nonsense, e.g. cutout-relative):
     # at least one of the bright blobs of the scene is reported within 2.5 pixels, in both frames
@@ -686,6 +686,13 @@ def compare_finder(R, api, t0, t1, T, ny, nx, margins, detail, srcs=(), injected
     # INCLUSIVELY (kernel footprint touching the first / last row or column): reported in one frame iff in the other
     for (x0, y0) in injected:
         px, py = int(math.floor(x0 + 0.5)), int(math.floor(y0 + 0.5))
+        if conv is not None:
+            # the detection peak = the maximum of the convolved image next to the star (near an edge the truncated
+            # wings move it off the nominal position); computed here with scipy, independently of the finder
+            ya, xa = max(py - 2, 0), max(px - 2, 0)
+            win = conv[ya:py + 3, xa:px + 3]
+            jj, ii = np.unravel_index(np.argmax(win), win.shape)
+            px, py = xa + int(ii), ya + int(jj)
         if not (mx <= px <= nx - 1 - mx and my <= py <= ny - 1 - my):
             R.skip(api, 'injected-star-footprint-not-inside-frame')
             continue
@@ -758,6 +765,7 @@ def inject_band_stars(d, srcs, grng, xr, yr, sx, sy, theta):
 
 def g_starfinders(sc, T, R, grng):
     from photutils.detection import DAOStarFinder, IRAFStarFinder, StarFinder
+    from scipy.ndimage import convolve as ndi_convolve
     ny, nx = sc['ny'], sc['nx']
     m = sc['mask']
     M = T.img(m, False)
@@ -774,7 +782,8 @@ def g_starfinders(sc, T, R, grng):
     d, srcs, inj = inject_band_stars(sc['data'], sc['srcs'], grng, k.xradius, k.yradius, k.xsigma, k.ysigma, math.radians(kw['theta']))
     D = T.img(d, 0.0)
     compare_finder(R, 'DAOStarFinder', f(d, **mk), DAOStarFinder(**kw)(D, **mkT), T, ny, nx, (k.xradius, k.yradius),
-                   {'params': kw, 'kernel_radii_xy': (k.xradius, k.yradius), 'mask': use_mask}, srcs, inj)
+                   {'params': kw, 'kernel_radii_xy': (k.xradius, k.yradius), 'mask': use_mask}, srcs, inj,
+                   ndi_convolve(d, k.data, mode='constant', cval=0.0))
     # IRAFStarFinder (circular kernel; min_separation footprint)
     kw = dict(threshold=grng.uniform(3.0, 8.0), fwhm=grng.uniform(2.5, 4.0), sigma_radius=grng.choice([1.5, 2.0]),
               minsep_fwhm=grng.choice([1.5, 2.5]), exclude_border=grng.random() < 0.6,
@@ -785,7 +794,8 @@ def g_starfinders(sc, T, R, grng):
     d, srcs, inj = inject_band_stars(sc['data'], sc['srcs'], grng, max(k.xradius, ms), max(k.yradius, ms), k.xsigma, k.ysigma, 0.0)
     D = T.img(d, 0.0)
     compare_finder(R, 'IRAFStarFinder', f(d, **mk), IRAFStarFinder(**kw)(D, **mkT), T, ny, nx,
-                   (max(k.xradius, ms), max(k.yradius, ms)), {'params': kw, 'mask': use_mask}, srcs, inj)
+                   (max(k.xradius, ms), max(k.yradius, ms)), {'params': kw, 'mask': use_mask}, srcs, inj,
+                   ndi_convolve(d, k.data, mode='constant', cval=0.0))
     # StarFinder with a non-square, elongated Gaussian kernel
     ky, kx = grng.choice([(5, 13), (13, 5), (7, 11), (11, 7), (7, 7)])
     yy, xx = np.mgrid[0:ky, 0:kx]
@@ -797,10 +807,14 @@ def g_starfinders(sc, T, R, grng):
     mx, my = max(kx // 2, ms), max(ky // 2, ms)
     d, srcs, inj = inject_band_stars(sc['data'], sc['srcs'], grng, mx, my, sgx, sgy, 0.0)
     D = T.img(d, 0.0)
+    kn = kern / kern.max()          # the documented normalisation of the StarFinder kernel (zero sum, unit response)
+    den = np.sum(kn ** 2) - np.sum(kn) ** 2 / kn.size
+    kn = (kn - np.sum(kn) / kn.size) / den
     t0 = StarFinder(kernel=kern.copy(), **kw)(d.copy(), **mk)
     t1 = StarFinder(kernel=kern.copy(), **kw)(D.copy(), **mkT)
     compare_finder(R, 'StarFinder', t0, t1, T, ny, nx, (mx, my),
-                   {'params': kw, 'kernel_shape': (ky, kx), 'mask': use_mask}, srcs, inj)
+                   {'params': kw, 'kernel_shape': (ky, kx), 'mask': use_mask}, srcs, inj,
+                   ndi_convolve(d, kn, mode='constant', cval=0.0))
 
 
 # ======================================================================================
@@ -923,7 +937,11 @@ def add_tiny_segments(seg, grng, n=5):
         w = max(p[1] for p in pts) + 1
         for _ in range(40):
             y0, x0 = grng.randint(3, ny - h - 4), grng.randint(3, nx - w - 4)
-            if not seg[y0 - 1:y0 + h + 1, x0 - 1:x0 + w + 1].any():
+            if names.index(name) < 2:       # flush with one of the four edges (segment touches the first/last row/column)
+                side = grng.choice(['left', 'right', 'bottom', 'top'])
+                y0 = 0 if side == 'bottom' else (ny - h if side == 'top' else y0)
+                x0 = 0 if side == 'left' else (nx - w if side == 'right' else x0)
+            if not seg[max(y0 - 1, 0):y0 + h + 1, max(x0 - 1, 0):x0 + w + 1].any():
                 lab += 1
                 for (j, i) in pts:
                     seg[y0 + j, x0 + i] = lab
@@ -971,39 +989,50 @@ def g_source_catalog(sc, T, R, grng):
                        convolved_data=T.img(conv, 0.0) if opts['use_conv'] else None, **kw)
     n = c0.nlabels
     allsel = np.ones(n, bool)
-    # footprint of the quantities that look beyond the segment
+    # footprints of the quantities that look beyond the segment: INCLUSIVE rule on the bounding boxes of the
+    # apertures actually used (a box may be flush with the first / last row or column)
+    from photutils.aperture import CircularAperture, EllipticalAperture
     xc, yc = val(c0.xcentroid), val(c0.ycentroid)
-    rad = 6.0 * np.nan_to_num(val(c0.semimajor_sigma), nan=50.0)
-    rhl = np.nan_to_num(val(c0.fluxfrac_radius(0.5)), nan=50.0)
-    rad = np.maximum(rad, 3.4 * rhl)
+    sa, sb = val(c0.semimajor_sigma), val(c0.semiminor_sigma)
+    th = np.deg2rad(val(c0.orientation))
+    rhl = np.atleast_1d(val(c0.fluxfrac_radius(0.5)))
     kaps = c0.kron_aperture
     if not isinstance(kaps, (list, tuple, np.ndarray)):
         kaps = [kaps]
-    for k, ap in enumerate(kaps):
-        if ap is None:
-            rad[k] = 1e3
-        else:
-            b = ap.bbox
-            rad[k] = max(rad[k], xc[k] - b.ixmin, b.ixmax - xc[k], yc[k] - b.iymin, b.iymax - yc[k])
-    if opts['localbkg_width'] > 0:
-        bb = c0.bbox
-        if not isinstance(bb, (list, tuple, np.ndarray)):
-            bb = [bb]
-        for k, b in enumerate(bb):
-            half = 0.75 * max(b.ixmax - b.ixmin, b.iymax - b.iymin) + opts['localbkg_width'] + 2
-            cx, cy = 0.5 * (b.ixmin + b.ixmax - 1), 0.5 * (b.iymin + b.iymax - 1)
-            rad[k] = max(rad[k], abs(cx - xc[k]) + half, abs(cy - yc[k]) + half)
-    rad = rad + 4.0
-    interior = (xc - rad >= 0) & (xc + rad <= nx - 1) & (yc - rad >= 0) & (yc + rad <= ny - 1)
-    R.skip('SourceCatalog', 'beyond-segment-footprint-not-inside-frame', int((~interior).sum()))
-    R.skip('SourceCatalog', '(not skipped) beyond-segment-footprint-inside-frame', int(interior.sum()))
-    det = lambda: {'threshold': thr, 'options': opts, 'nlabels': int(n), 'interior': interior.tolist(),
+    lbaps = c0.local_background_aperture
+    if not isinstance(lbaps, (list, tuple, np.ndarray)):
+        lbaps = [lbaps]
+    lbw = opts['localbkg_width'] > 0
+
+    def ins(ap):
+        return ap is not None and bbox_inside(ap.bbox, ny, nx)
+    lb_sel = np.array([(not lbw) or ins(lbaps[k]) for k in range(n)])
+    kron_sel = np.zeros(n, bool)      # kron_radius is measured in the ellipse of 6 sigma, the flux in the Kron aperture
+    ff_sel = np.zeros(n, bool)        # fluxfrac_radius: circles up to the Kron semi-major axis
+    win_sel = np.zeros(n, bool)       # windowed centroid: circle of 4 sigma_w = 3.4 half-light radii (+ its own motion)
+    for k in range(n):
+        if not (np.isfinite(xc[k]) and np.isfinite(sa[k]) and np.isfinite(sb[k]) and sa[k] > 0 and sb[k] > 0
+                and kaps[k] is not None):
+            continue
+        meas = EllipticalAperture((xc[k], yc[k]), 6.0 * sa[k], 6.0 * sb[k], theta=th[k])
+        kron_sel[k] = ins(meas) and ins(kaps[k]) and lb_sel[k]
+        amax = float(val(getattr(kaps[k], 'a', getattr(kaps[k], 'r', 0.0))))
+        ff_sel[k] = kron_sel[k] and ins(CircularAperture((xc[k], yc[k]), amax + 0.5))
+        win_sel[k] = ff_sel[k] and np.isfinite(rhl[k]) and ins(CircularAperture((xc[k], yc[k]), 3.4 * rhl[k] + 1.5))
+    interior = kron_sel
+    R.skip('SourceCatalog', 'kron-footprint-not-inside-frame', int((~kron_sel).sum()))
+    R.skip('SourceCatalog', '(not skipped) kron-footprint-inside-frame', int(kron_sel.sum()))
+    R.skip('SourceCatalog', '(not skipped) windowed-centroid-footprint-inside-frame', int(win_sel.sum()))
+    sel_map = {'centroid_win': win_sel, 'xcentroid_win': win_sel, 'ycentroid_win': win_sel, 'cutout_centroid_win': win_sel,
+               'local_background': lb_sel, 'local_background_aperture': lb_sel,
+               'min_value': lb_sel, 'max_value': lb_sel, 'segment_flux': lb_sel}
+    det = lambda: {'threshold': thr, 'options': opts, 'nlabels': int(n), 'kron_footprint_inside': kron_sel.tolist(),
+                   'win_footprint_inside': win_sel.tolist(), 'local_bkg_footprint_inside': lb_sel.tolist(),
                    'xcentroid': js(xc), 'ycentroid': js(yc)}
-    # with a local background, min_value / max_value / segment_flux subtract it: they see the padding too
-    lb_dep = ('min_value', 'max_value', 'segment_flux') if opts['localbkg_width'] > 0 else ()
-    compare_props(R, 'SourceCatalog', c0, c1, T, CAT_SEGMENT, lambda nm: interior if nm in lb_dep else allsel,
-                  exact=True, ttol=(1e-8, 1e-9), detail=det)
-    compare_props(R, 'SourceCatalog', c0, c1, T, CAT_BEYOND, lambda nm: interior, exact=False,
+    # with a local background, min_value / max_value / segment_flux subtract it: they see its annulus too
+    compare_props(R, 'SourceCatalog', c0, c1, T, CAT_SEGMENT, lambda nm: sel_map.get(nm, allsel) if nm in
+                  ('min_value', 'max_value', 'segment_flux') else allsel, exact=True, ttol=(1e-8, 1e-9), detail=det)
+    compare_props(R, 'SourceCatalog', c0, c1, T, CAT_BEYOND, lambda nm: sel_map.get(nm, kron_sel), exact=False,
                   ttol=(1e-6, 1e-7), detail=det)
     # direct oracle: background_centroid = bilinear interpolation of the background at (row, col) =
     # (ycentroid, xcentroid) (the centroid lies inside the segment's bounding box, hence inside the frame)
@@ -1025,13 +1054,17 @@ def g_source_catalog(sc, T, R, grng):
     # bilinear interpolation of the background at the (float) centroid: weights differ by rounding
     compare_props(R, 'SourceCatalog', c0, c1, T, {'background_centroid': 'same'}, lambda nm: allsel, exact=False,
                   ttol=(1e-8, 1e-9), detail=det)
-    if interior.any():
+    if ff_sel.any():
         for frac in (0.5, 0.9):
             f0, f1 = val(c0.fluxfrac_radius(frac)), val(c1.fluxfrac_radius(frac))
             R.ok('SourceCatalog', f'fluxfrac_radius({frac}) unchanged',
-                 same(np.atleast_1d(f1)[interior], np.atleast_1d(f0)[interior], False, rtol=1e-6, atol=1e-6),
+                 same(np.atleast_1d(f1)[ff_sel], np.atleast_1d(f0)[ff_sel], False, rtol=1e-6, atol=1e-6),
                  lambda: dict(det(), original=js(f0), transformed=js(f1)))
-        rr = grng.uniform(2.0, 5.0)
+    rr = grng.uniform(2.0, 5.0)
+    circ_sel = np.array([bool(np.isfinite(xc[k])) and lb_sel[k] and ins(CircularAperture((xc[k], yc[k]), rr)) if
+                         np.isfinite(xc[k]) else False for k in range(n)])
+    interior = circ_sel
+    if circ_sel.any():
         p0, p1 = c0.circular_photometry(rr), c1.circular_photometry(rr)
         R.ok('SourceCatalog', 'circular_photometry unchanged',
              same(np.atleast_1d(val(p1[0]))[interior], np.atleast_1d(val(p0[0]))[interior], False, rtol=1e-8, atol=1e-9)
@@ -1039,7 +1072,7 @@ def g_source_catalog(sc, T, R, grng):
              lambda: dict(det(), radius=rr, original=js(p0[0]), transformed=js(p1[0])))
     if use_wcs:
         for nm, sel in (('sky_centroid', allsel), ('sky_centroid_icrs', allsel), ('sky_centroid_quad', allsel),
-                        ('sky_centroid_win', interior), ('sky_bbox_ll', allsel), ('sky_bbox_ul', allsel),
+                        ('sky_centroid_win', win_sel), ('sky_bbox_ll', allsel), ('sky_bbox_ul', allsel),
                         ('sky_bbox_lr', allsel), ('sky_bbox_ur', allsel)):
             if not sel.any():
                 continue
@@ -1322,14 +1355,24 @@ def g_centroids(sc, T, R, grng):
             rel('centroid_quadratic', 'centroid (peak searched)', q1, q0, 1e-7, lambda: dict(det, original=js(q0), transformed=js(q1)))
     # centroid_sources on the full scene
     pos = [(s['x0'] + grng.uniform(-1, 1), s['y0'] + grng.uniform(-1, 1)) for s in sc['srcs']]
-    xs, ys = np.array([p[0] for p in pos]), np.array([p[1] for p in pos])
-    xsT, ysT = T.xy(xs, ys)
+    xs0, ys0 = np.array([p[0] for p in pos]), np.array([p[1] for p in pos])
     for f, nm, tol in ((centroid_com, 'centroid_com', POS_TOL), (centroid_quadratic, 'centroid_quadratic', 1e-7),
                        (centroid_1dg, 'centroid_1dg', 1e-4 if not shift else POS_TOL),
                        (centroid_2dg, 'centroid_2dg', 2e-3 if not shift else POS_TOL)):
         box = grng.choice([7, 9, 11, (7, 11), (9, 5)])
         boxT = box if (shift or np.isscalar(box)) else box[::-1]
         by, bx = (box, box) if np.isscalar(box) else box
+        # plus positions whose cutout box TOUCHES each of the four edges (box flush with the first / last row / column)
+        tx, ty = grng.uniform(bx, nx - 1 - bx), grng.uniform(by, ny - 1 - by)
+        xs = np.concatenate([xs0, [bx // 2 + grng.uniform(-0.4, 0.4), nx - 1 - bx // 2 + grng.uniform(-0.4, 0.4), tx, tx]])
+        ys = np.concatenate([ys0, [ty, ty, by // 2 + grng.uniform(-0.4, 0.4), ny - 1 - by // 2 + grng.uniform(-0.4, 0.4)]])
+        if f in (centroid_1dg, centroid_2dg):      # Gaussian fits on pure noise are slow: one touching box only
+            keep = np.ones(len(xs), bool)
+            keep[len(xs0):] = False
+            keep[len(xs0) + grng.randrange(4)] = True
+            xs, ys = xs[keep], ys[keep]
+        pos = list(zip(xs.tolist(), ys.tolist()))
+        xsT, ysT = T.xy(xs, ys)
         # centroid_sources cuts the box around the ROUNDED position
         ins = ((np.round(xs) - bx // 2 >= 0) & (np.round(xs) + bx // 2 <= nx - 1)
                & (np.round(ys) - by // 2 >= 0) & (np.round(ys) + by // 2 <= ny - 1))
